@@ -885,6 +885,16 @@ fn hash128(input: u128) -> Result<u128, Error> {
     Ok(u128::from_le_bytes(buf))
 }
 
+/// The value a party commits to in the LaAND check: its check value followed by its party id (as in
+/// the coin tossing). Without the id a rushing peer could answer a commitment and its opening with
+/// copies of them, and the xor of the opened values would be zero whatever it did before.
+fn hi_with_id(hi: u128, party: usize) -> [u8; 18] {
+    let mut buf = [0u8; 18];
+    buf[..16].copy_from_slice(&hi.to_be_bytes());
+    buf[16..].copy_from_slice(&(party as u16).to_be_bytes());
+    buf
+}
+
 /// Protocol Pi_LaAND that performs F_LaAND from the paper
 /// [Global-Scale Secure Multiparty Computation](https://dl.acm.org/doi/pdf/10.1145/3133956.3133979).
 ///
@@ -975,7 +985,7 @@ async fn flaand(
             hi[ll] ^= mk_zi.0 ^ ki_zk.0 ^ ki_xj_phi[k][ll];
         }
         hi[ll] ^= (xshares[ll].0 as u128 * phi[ll]) ^ (zshares[ll].0 as u128 * delta.0);
-        commhi.push(commit(&hi[ll].to_be_bytes()));
+        commhi.push(commit(&hi_with_id(hi[ll], i)));
     }
     drop(phi);
     drop(ki_xj_phi);
@@ -989,7 +999,7 @@ async fn flaand(
     let mut xor_all_hi = hi; // XOR for all parties, including p_own
     for k in (0..n).filter(|k| *k != i) {
         for (ll, (xh, hi_k)) in xor_all_hi.iter_mut().zip(hi_k[k].clone()).enumerate() {
-            if !open_commitment(&commhi_k[k][ll], &hi_k.to_be_bytes()) {
+            if !open_commitment(&commhi_k[k][ll], &hi_with_id(hi_k, k)) {
                 return Err(Error::CommitmentCouldNotBeOpened);
             }
             *xh ^= hi_k;
